@@ -9,6 +9,7 @@ Contracts
   time-expression         every syntax x frame rate / multiplier / tick rate, bounded-exhaustive over a catalogue
   inline-value            catalogue of attribute values read back through the model getters (lengths, positions, font families,
                           padding shorthand, ...) against values written down from the TTML2 syntax
+  document-parameters     cell / pixel resolution, language, active area, aspect ratio of the tt element through the model getters
   corrupt-one-attribute   the same documents with ONE attribute made unknown / malformed / an unknown token: no exception, the
                           snapshots equal those of the document with that attribute removed, a log record is emitted
 
@@ -297,8 +298,10 @@ def minimise(xml_text, kind, budget=400, fails=None):
   """greedy reduction keeping the failure kind; -> minimal xml text"""
   if fails is None:
     def fails(x):
+      # same kind of failure, and not one that an already-described deviation explains (the reduction must not drift
+      # from the defect at hand into a witness of a known one)
       r = evaluate(x)
-      return r.status == "fail" and r.kind == kind
+      return r.status == "fail" and r.kind == kind and explain(x) is None
   root = et.fromstring(xml_text)
   used = [0]
 
@@ -807,7 +810,7 @@ class Gen:
     if r.random() < 0.1:
       a[q(XML, "space")] = r.choice(["preserve", "default"])
     if r.random() < 0.1:
-      a[q(XML, "lang")] = r.choice(["", "de"])
+      a[q(XML, "lang")] = r.choice(["", "de", None])
     if r.random() < 0.15:
       a[q(TTP, "cellResolution")] = r.choice(["40 20", "32 15"])
     if r.random() < 0.15:
@@ -1267,6 +1270,36 @@ def check_values(rec):
                "replayers.c04:value", rargs)
 
 
+def check_parameters(rec):
+  """document-level parameters through the model getters"""
+  contract = "document-parameters"
+  cases = [
+    ({q(TTP, "cellResolution"): "40 20"}, "cell resolution (columns, rows)", lambda d: (d.get_cell_resolution().columns, d.get_cell_resolution().rows), (40, 20)),
+    ({}, "default cell resolution (columns, rows)", lambda d: (d.get_cell_resolution().columns, d.get_cell_resolution().rows), (32, 15)),
+    ({q(TTS, "extent"): "1280px 720px"}, "pixel resolution (width, height)", lambda d: (d.get_px_resolution().width, d.get_px_resolution().height), (1280, 720)),
+    ({q(XML, "lang"): "fr-CA"}, "xml:lang", lambda d: d.get_lang(), "fr-CA"),
+    ({q(XML, "lang"): None}, "xml:lang absent", lambda d: d.get_lang(), ""),
+    ({q(ITTP, "activeArea"): "10% 20% 80% 70%"}, "active area (left, top, width, height)",
+     lambda d: tuple(round(float(x), 9) for x in (d.get_active_area().left_offset, d.get_active_area().top_offset, d.get_active_area().width,
+                                                  d.get_active_area().height)), (0.1, 0.2, 0.8, 0.7)),
+    ({q(TTP, "displayAspectRatio"): "4 3"}, "display aspect ratio", lambda d: Fraction(d.get_display_aspect_ratio()), Fraction(4, 3)),
+    ({q(ITTP, "aspectRatio"): "16 9"}, "ittp:aspectRatio", lambda d: Fraction(d.get_display_aspect_ratio()), Fraction(16, 9)),
+  ]
+  for attrs, what, getter, expected in cases:
+    doc_xml = _serialise(tt([], mk("body", {}, [mk("div", {}, [mk("p", {}, ["A"])])]), attrs))
+    rec.evaluated(contract, what, {"parameter": what})
+    try:
+      doc, _ = read(doc_xml)
+      got = getter(doc)
+    except Exception as ex:  # pylint: disable=broad-except
+      rec.fail(f"parameter:{_slug(what)}:raises-{type(ex).__name__}", contract, f"{what}: {type(ex).__name__}: {ex}", {"xml": doc_xml}, repr(ex),
+               repr(expected), "replayers.c04:snapshot", {"xml": doc_xml})
+      continue
+    if got != expected:
+      rec.fail(f"parameter:{_slug(what)}", contract, f"{what} read as {got!r}", {"xml": doc_xml}, repr(got), repr(expected),
+               "replayers.c04:parameter", {"xml": doc_xml, "what": what, "expected": repr(expected), "observed": repr(got)})
+
+
 def _value_eq(a, b):
   if isinstance(a, float) or isinstance(b, float):
     try:
@@ -1359,12 +1392,13 @@ def _work(item):
   elif kind == "handmade":
     docs = [(f"handmade/{i}", d) for i, d in enumerate(handmade_docs())] + [(f"seed/{fn}", d) for fn, d in seed_docs()]
     check_values(rec)
+    check_parameters(rec)
   else:
     cfg = {"random": None, "timing": CFG_TIMING, "style": CFG_STYLE, "space": CFG_SPACE, "region": CFG_REGION, "ruby": CFG_RUBY,
            "seq-indef": CFG_SEQ_INDEF}[kind]
     docs = [(f"{kind}/{i}", fam_random(seed, f"{kind}/{i}", cfg)) for i in range(lo, hi)]
   r = rng(seed, f"c04/corrupt/{kind}/{lo}")
-  per_doc = 4 if tier == "quick" else 20
+  per_doc = 4 if tier == "quick" else 10
   cpu = {"eval": 0.0, "corrupt": 0.0}
   for origin, xml_text in docs:
     c0 = time.process_time()
@@ -1397,7 +1431,7 @@ def plan(tier, seed):
     for part in range(4):
       items.append(("sink", i, part, seed, tier))
   sizes = {"random": 240, "timing": 280, "style": 240, "space": 160, "region": 160, "ruby": 80, "seq-indef": 40}
-  mult = 1 if quick else 16
+  mult = 1 if quick else 10
   for kind, n in sizes.items():
     n *= mult
     chunk = 40 if quick else 120
